@@ -4,6 +4,7 @@ package verifrt
 
 import (
 	"errors"
+	"math/bits"
 
 	"github.com/transparency-dev/merkle"
 	"github.com/transparency-dev/merkle/proof"
@@ -31,6 +32,21 @@ func VCVerdict(s1, s2 uint64, plen int, pt, r1, r2 []byte) bool {
 	v = IteBool(s1 == s2, And(plen == 0, Eq(r1, r2)), v)
 	v = IteBool(s2 < s1, false, v)
 	return v
+}
+
+// VCWantLen is NOT part of the summary above (the bit-count arithmetic over two symbolic 64-bit
+// sizes made z3 answer unknown on H-UPD's obligations); H-VC checks it against the real function,
+// and length-dependent behaviour of Update is covered by H-HONEST with concrete sizes.
+// It is the one proof length that VerifyConsistency accepts for sizes 0 < s1 < s2 (the
+// real function compares len(proof) with it before it looks at any hash): the inclusion-proof
+// suffix of entry s1-1 in the tree of size s2 from level TrailingZeros(s1) upwards, plus the
+// seed hash unless s1 is a power of two.
+func VCWantLen(s1, s2 uint64) int {
+	full := bits.Len64((s1 - 1) ^ (s2 - 1))
+	shift := bits.TrailingZeros64(s1)
+	border := bits.OnesCount64((s1 - 1) >> uint(full))
+	start := int(IteU64(s1 == uint64(1)<<uint(shift), 0, 1))
+	return start + full - shift + border
 }
 
 // VerifyConsistency either runs the real function (vc_inline=1) or its summary; both log a VC event.
